@@ -1171,8 +1171,9 @@ class Emitter:
         if vt not in s.load_of or K < 0: return None
         return K
     def vtable_slots(s):
+        """slot K -> [(function, vtable global)] over the vtables defined in this module; plus the typeinfo ancestry (class -> proper ancestors)"""
         if getattr(s, '_vslots', None) is None:
-            s._vslots = {}
+            s._vslots = {}; s._ti_parents = {}
             def fn_of(v):
                 while v is not None and v.kind in ('ccast',): v = v.a
                 return v.name if v is not None and v.kind == 'global' and v.name in s.m.fns else None
@@ -1181,19 +1182,53 @@ class Emitter:
                 if v.kind == 'carr': yield v
                 for e in getattr(v, 'els', []) or []:
                     if e.kind in ('carr', 'cstruct'): yield from arrays(e)
+            def ti_refs(v):
+                out = []
+                if v is None: return out
+                if v.kind == 'global' and v.name.lstrip('@').strip('"').startswith('_ZTI'): out.append(v.name)
+                for k in ('els', 'ops'):
+                    for e in getattr(v, k, []) or []: out += ti_refs(e)
+                if hasattr(v, 'a') and isinstance(getattr(v, 'a'), V): out += ti_refs(v.a)
+                return out
             for g, gd in s.m.globals.items():
-                if not g.lstrip('@').strip('"').startswith('_ZTV') or gd.get('init') is None: continue
+                nm = g.lstrip('@').strip('"')
+                if nm.startswith('_ZTI') and gd.get('init') is not None and getattr(gd['init'], 'els', None):
+                    s._ti_parents[nm[4:]] = [r.lstrip('@').strip('"')[4:] for e in gd['init'].els[2:] for r in ti_refs(e)]
+                if not nm.startswith('_ZTV') or gd.get('init') is None: continue
                 for arr in arrays(gd['init']):
                     for i, e in enumerate(arr.els):
                         fn = fn_of(e)
-                        if fn and i >= 2: s._vslots.setdefault(i - 2, []).append(fn)
+                        if fn and i >= 2: s._vslots.setdefault(i - 2, []).append((fn, nm[4:]))
         return s._vslots
+    def class_of(s, ty):
+        """Itanium-mangled class name of the pointee of an IR pointer type (plain, non-template classes only), else None"""
+        if not isinstance(ty, PtrTy) or not isinstance(ty.to, NamedTy): return None
+        m = re.fullmatch(r'%"?(?:class|struct)\.([A-Za-z_][A-Za-z0-9_]*(?:::[A-Za-z_][A-Za-z0-9_]*)*)"?', ty.to.name)
+        if not m: return None
+        parts = m.group(1).split('::')
+        if parts == ['std', 'exception']: return 'St9exception'
+        enc = ''.join('%d%s' % (len(q), q) for q in parts)
+        return enc if len(parts) == 1 else 'N' + enc + 'E'
+    def derives(s, cls, base):
+        seen = set(); work = [cls]
+        while work:
+            x = work.pop()
+            if x == base: return True
+            if x in seen: continue
+            seen.add(x); work += s._ti_parents.get(x, [])
+        return False
     def vcands(s, K, ins, args):
         out = []
         def shape(t):
             rt = s.resolve(t)
             return 'p' if isinstance(rt, PtrTy) else ('v' if isinstance(rt, VoidTy) else s.ctype(t))
-        for fn in s.vtable_slots().get(K, []):
+        slots = s.vtable_slots().get(K, [])
+        # static class of the object (first argument): only vtables of classes derived from it can be the dynamic type
+        base = s.class_of(args[0].ty) if args else None
+        if base is not None and (base in s._ti_parents or any(base in ps for ps in s._ti_parents.values())):
+            narrowed = [(fn, cls) for fn, cls in slots if s.derives(cls, base)]
+            if narrowed: slots = narrowed
+        for fn, cls in slots:
             f2 = s.m.fns[fn]
             if fn in out or len(f2.params) != len(args) or f2.vararg: continue
             if shape(f2.ret) != shape(ins.ret): continue
